@@ -61,7 +61,7 @@ func c12(c *Ctx) {
 		return
 	}
 	r.Explanation = "Partial: a routing table over all send sites and an identity discipline. (T1) recipients are written only by the six send helpers, and each helper adds exactly what its name says (no extra filter, the one exclusion in sendChannelButOne compares with its user parameter); (T2) every call of a send helper in a handler is classified by the message it sends (command class, prefix class) and by helper + recipient, and must match a row of the routing table; (T3) in client-reachable code a relayed line's prefix is the server prefix, a session's own cached prefix, or a saved copy of it; the incoming message's prefix is never read there; (T4) Nick/Username assignments are followed by updateIrcPrefix, which is the only writer of the cached prefix besides SERVER and snapshot load; (T5) the delivery filters; (T6) +n and +G in PRIVMSG; (T7) send() de-duplicates by message pointer, so no write to a message variable is reachable from a send of it. Whether the recipient set computed by a helper equals true membership at that moment is C14 (pairing) plus history."
-	r.Rules = []string{"C12.T1 helpers add exactly their recipients", "C12.T2 routing table", "C12.T3 real identity", "C12.T4 prefix freshness", "C12.T5 delivery filter", "C12.T6 +n and +G", "C12.T7 a sent message object is not modified and re-sent", "C12.T8 a renamed session is told"}
+	r.Rules = []string{"C12.T1 helpers add exactly their recipients", "C12.T2 routing table", "C12.T3 real identity", "C12.T4 prefix freshness", "C12.T5 delivery filter", "C12.T6 +n and +G", "C12.T7 a sent message object is not modified and re-sent", "C12.T8 a renamed session is told", "C12.T9 a session whose user modes change is told"}
 
 	c.c12Helpers(f)
 
@@ -241,6 +241,7 @@ func c12(c *Ctx) {
 	c.c12Privmsg(f)
 	c.c12NoReuse(f)
 	c.c12RenameTold(f)
+	c.c12ModeTold()
 }
 
 func itoa(n int) string {
@@ -1138,5 +1139,84 @@ func (c *Ctx) c12RenameTold(f *ircFacts) {
 	}
 	if n < 2 {
 		r.Break("C12.T8: only %d NICK announcements through sendCommonChannels found", n)
+	}
+}
+
+// c12ModeTold (T9): "MODE … notifications … to the subject itself": wherever a handler changes a user mode of a session
+// (<session>.modes[…] = …), every path from the change to the end of the handler sends that same session a MODE line. (The
+// asker of a mode *query* is the acting session; a *change* made by an operator or by services is confirmed to the session it
+// was made on — merging the two sends loses one of them.)
+func (c *Ctx) c12ModeTold() {
+	r := c.R
+	modesF := c.P.Field("ircserver", "Session", "modes")
+	if modesF == nil {
+		r.Break("C12.T9: field ircserver.Session.modes not found")
+		return
+	}
+	n := 0
+	for _, fi := range c.P.FuncsIn("ircserver") {
+		if fi.Body() == nil {
+			continue
+		}
+		info := fi.Info()
+		var g *cfgx.Graph
+		ast.Inspect(fi.Body(), func(m ast.Node) bool {
+			as, ok := m.(*ast.AssignStmt)
+			if !ok {
+				return true
+			}
+			for _, l := range as.Lhs {
+				ie, ok := ast.Unparen(l).(*ast.IndexExpr)
+				if !ok {
+					continue
+				}
+				se, ok := ast.Unparen(ie.X).(*ast.SelectorExpr)
+				if !ok || astx.FieldSel(info, se) != modesF {
+					continue
+				}
+				subject := se.X
+				if g == nil {
+					g = c.Graph(fi)
+				}
+				wv := g.VertexOf(as)
+				if wv < 0 {
+					continue
+				}
+				n++
+				tells := func(x int) bool {
+					if g.V[x].Node == nil {
+						return false
+					}
+					for _, call := range astx.Calls(g.V[x].Node, false) {
+						fn := astx.Callee(info, call)
+						if fn == nil || fname(fn) != "sendUser" || len(call.Args) < 3 || !astx.Same(info, call.Args[0], subject) {
+							continue
+						}
+						isMode := false
+						ast.Inspect(call.Args[2], func(k ast.Node) bool {
+							if cl, ok := k.(*ast.CompositeLit); ok {
+								if cv := litField(cl, "Command"); cv != nil {
+									if sv, ok := astx.ConstString(info, cv); ok && sv == "MODE" {
+										isMode = true
+									}
+								}
+							}
+							return true
+						})
+						if isMode {
+							return true
+						}
+					}
+					return false
+				}
+				silent := g.Reach(wv, tells, nil)[g.Exit]
+				r.Check(!silent, "C12.T9", fi.Name(), "user mode change of "+astx.Str(subject)+" is confirmed to that session", c.P.Pos(as.Pos()), "sendUser(<same session>, …, MODE …) on every path to the end",
+					"a user mode of a session is changed but the MODE line does not go to that session on some path (it goes to the session that asked, or nowhere): the subject never learns about a change made by an operator or by services, and somebody else is told instead")
+			}
+			return true
+		})
+	}
+	if n < 3 {
+		r.Break("C12.T9: only %d changes of Session.modes found in package ircserver", n)
 	}
 }
